@@ -617,7 +617,7 @@ def X3b(ctx: Ctx) -> RuleResult:
 
 def _public_roots(mod):
     """name -> the public functions of the module from which it is reachable (itself when public)"""
-    calls = {f.name: {x.id for x in ast.walk(f.node) if isinstance(x, ast.Name) and x.id in mod.functions and x.id != f.name} for f in mod.functions.values()}
+    calls = {f.name: {mod.functions[x.id].name for x in ast.walk(f.node) if isinstance(x, ast.Name) and x.id in mod.functions and mod.functions[x.id] is not f} for f in mod.functions.values()}
     callers: Dict[str, Set[str]] = {k: set() for k in calls}
     for k, vs in calls.items():
         for v in vs:
@@ -1144,7 +1144,7 @@ def X3c(ctx: Ctx) -> RuleResult:
     # private helper does not change its identity
     calls: Dict[str, Set[str]] = {}
     for fn in mod.functions.values():
-        calls[fn.name] = {x.id for x in ast.walk(fn.node) if isinstance(x, ast.Name) and x.id in mod.functions and x.id != fn.name}
+        calls[fn.name] = {mod.functions[x.id].name for x in ast.walk(fn.node) if isinstance(x, ast.Name) and x.id in mod.functions and mod.functions[x.id] is not fn}
     callers: Dict[str, Set[str]] = {k: set() for k in calls}
     for k, vs in calls.items():
         for v in vs:
